@@ -62,6 +62,8 @@ structure Sim where
   rules : List Rule
   holdNew : Bool
   held : List Nat
+  holdNext : List (Nat × Nat) := []   -- (connection, k): the node holds back the next k `USE` statements on it
+  stuck : List (Nat × Nat) := []      -- (connection, k): the k oldest statements in flight on it are held back
   script : List Accept := []    -- what the node does with the next accepted connections (then: by source port)
   plain : Nat := 0              -- open futures that are immediate retries on the regular port
 
@@ -102,49 +104,71 @@ def Sim.reply (s : Sim) (i : Nat) (k : VerifiedName) : Sim × Option (SrvReply V
 
 def Sim.ev (s : Sim) (e : Ev VerifiedName) : Sim := { s with pool := step s.pool e }
 
-/-- The node answers the oldest `USE` in flight on connection `i` (a broken connection fails it). -/
-def Sim.serveOne (s : Sim) (i : Nat) : Sim :=
-  match (s.pool.net i).queue with
-  | [] => s
-  | (_, k) :: _ =>
-    if (s.pool.net i).broken then s.ev (.serve i .ack)
+/-- The node answers the `USE` at position `pos` of connection `i`'s queue (0 = the oldest; a broken connection
+fails it). -/
+def Sim.serveAt (s : Sim) (i pos : Nat) : Sim :=
+  match (s.pool.net i).queue[pos]? with
+  | none => s
+  | some (_, k) =>
+    let ev (r : SrvReply VerifiedName) : Ev VerifiedName := if pos = 0 then .serve i r else .serveOoo i (pos - 1) r
+    if (s.pool.net i).broken then s.ev (ev .ack)
     else
       match s.reply i k with
-      | (s, some r) => s.ev (.serve i r)
-      | (s, none) => (s.ev (.breakConn i)).ev (.serve i .ack)
+      | (s, some r) => s.ev (ev r)
+      | (s, none) => (s.ev (.breakConn i)).ev (ev .ack)
 
-/-- The node answers everything in flight on `i`, oldest first. -/
+def Sim.stuckCount (s : Sim) (i : Nat) : Nat := ((s.stuck.find? (·.1 == i)).map (·.2)).getD 0
+
+/-- The node answers everything it does not hold back on `i`: all of it in order, or - when the oldest `k`
+statements are held - the later ones, out of order. -/
 def Sim.drain : Nat → Sim → Nat → Sim
   | 0, s, _ => s
-  | fuel + 1, s, i => if (s.pool.net i).queue.isEmpty then s else Sim.drain fuel (s.serveOne i) i
+  | fuel + 1, s, i =>
+    if s.held.contains i && !(s.pool.net i).broken then s
+    else
+      let k := if (s.pool.net i).broken then 0 else s.stuckCount i
+      if (s.pool.net i).queue.length ≤ k then s else Sim.drain fuel (s.serveAt i k) i
+
+/-- A statement has just been written on `i`: if the node was told to hold the next ones, it now holds it. -/
+def Sim.noteSubmit (s : Sim) (i : Nat) : Sim :=
+  match s.holdNext.find? (·.1 == i) with
+  | some (_, k + 1) =>
+    let others := s.holdNext.filter (·.1 != i)
+    let st := s.stuckCount i
+    { s with holdNext := if k = 0 then others else (i, k) :: others,
+             stuck := (i, st + 1) :: s.stuck.filter (·.1 != i) }
+  | _ => s
 
 def outcomeTok : Outcome → String
   | .ok => "ok"
   | .err e => "e:" ++ useErrLabel e
   | .panic => "PANIC"
 
-def Sim.isHeld (s : Sim) (i : Nat) : Bool := s.held.contains i && !(s.pool.net i).broken
-
 /-- `use_keyspace(names[i])` awaited: the task writes its `USE` on every snapshot connection, the node answers
-what is in flight on the connections it does not hold; if it holds one, the pool's timeout answers the caller
-and the `USE` stays in flight (it is answered when the node releases the connection, before anything written
-later: the queue is FIFO). -/
+what it does not hold back; if an answer is still missing, the pool's timeout answers the caller and the `USE`
+stays in flight (it is answered when the node releases it). -/
 def Sim.useKs (s : Sim) (k : VerifiedName) : Sim × String :=
   let tid := s.pool.tasks.length
   let s := s.ev (.useKs k)
   match findTask s.pool.tasks tid with
   | none => (s, "MODEL-BUG")
   | some t =>
-    let s := t.snapshot.foldl (fun s i => s.ev (.taskSubmit tid i)) s
-    let s := t.snapshot.foldl (fun s i => if s.isHeld i then s else s.drain 32 i) s
-    if t.snapshot.any s.isHeld then
-      let s := s.ev (.taskTimeout tid)
-      (s, "e:RequestTimeout")
-    else
-      let s := s.ev (.taskFinish tid)
-      match findTask s.pool.tasks tid with
-      | some t => (s, match t.resp with | some o => outcomeTok o | none => "MODEL-STUCK")
-      | none => (s, "MODEL-BUG")
+    let s := t.snapshot.foldl (fun s i =>
+      let live := !(s.pool.net i).broken
+      let s := s.ev (.taskSubmit tid i)
+      if live then s.noteSubmit i else s) s
+    let s := t.snapshot.foldl (fun s i => s.drain 32 i) s
+    match findTask s.pool.tasks tid with
+    | none => (s, "MODEL-BUG")
+    | some t =>
+      if !t.allDone then
+        let s := s.ev (.taskTimeout tid)
+        (s, "e:RequestTimeout")
+      else
+        let s := s.ev (.taskFinish tid)
+        match findTask s.pool.tasks tid with
+        | some t => (s, match t.resp with | some o => outcomeTok o | none => "MODEL-STUCK")
+        | none => (s, "MODEL-BUG")
 
 def Sim.connErrors (s : Sim) : Sim :=
   let broken := (s.pool.conns ++ s.pool.excess).filter fun i => (s.pool.net i).broken
@@ -320,9 +344,33 @@ def Sim.steps : List String → List String → Sim → List String → Option (
       Sim.steps rest (impl.drop 1) s ((if pending then "h" else "h-") :: acc)
     | "G" =>
       -- the node releases what it held: everything in flight is answered, oldest first
-      let s := { s with holdNew := false, held := [] }
+      let s := { s with holdNew := false, held := [], holdNext := [], stuck := [] }
       let s := (List.range s.pool.nextId).foldl (fun s i => s.drain 32 i) s
       Sim.steps rest impl s acc
+    | "E" =>
+      -- hold back the `USE` answers on the existing connections: all (`E`) or only the next k (`E<k>`)
+      let live := (List.range s.pool.nextId).filter s.alive
+      if arg == "" then Sim.steps rest impl { s with held := live ++ s.held } acc
+      else match arg.toNat? with
+        | some k => Sim.steps rest impl { s with holdNext := live.map (·, k) } acc
+        | none => none
+    | "O" =>
+      -- the node answers the k-th held statement of the connection of shard `sh` now
+      match arg.splitOn "," with
+      | [shs, ks] =>
+        match shs.toNat?, ks.toNat? with
+        | some sh, some k =>
+          let target := (List.range s.pool.nextId).find? fun i =>
+            s.alive i && (!s.sharded || (s.pool.net i).shard == sh) &&
+              ((s.held.contains i && (s.pool.net i).queue.length > k) || s.stuckCount i > k)
+          match target with
+          | some i =>
+            let s := s.serveAt i k
+            let s := { s with stuck := s.stuck.map fun e => if e.1 == i then (i, e.2 - 1) else e }
+            Sim.steps rest (impl.drop 1) s ("o" :: acc)
+          | none => Sim.steps rest (impl.drop 1) s ("o-" :: acc)
+        | _, _ => none
+      | _ => none
     | "Y" =>
       -- a user statement `USE names[i]` on the connection of shard `sh`
       match arg.splitOn "," with
